@@ -69,6 +69,12 @@ func consequence(c Case, params rlwe.Parameters, tShares, orig []*rlwe.SecretKey
 		}
 	}
 
+	if c.Evk {
+		if err := evkConsequence(c, params, ideal, tShares, orig, rec); err != nil {
+			return err
+		}
+	}
+
 	// collective decryption
 	level := c.Level
 	ringQ := params.RingQ().AtLevel(level)
@@ -145,6 +151,114 @@ func consequence(c Case, params rlwe.Parameters, tShares, orig []*rlwe.SecretKey
 		rec.Class("conseq=discriminating")
 	} else {
 		rec.Class("conseq=bound>=Q/16")
+	}
+	return nil
+}
+
+// evkConsequence generates a Galois key and (for small secrets) a relinearization key with the t additive shares and
+// with the N original secrets, each protocol instance serving both runs, and measures the keys against the ideal secret
+// with lattigo's own rlwe.NoiseGaloisKey / rlwe.NoiseRelinearizationKey (what the threshold example of the repository
+// does). Those return log2 of the standard deviation of the key's error term summed over the RNS digits; a standard
+// deviation never exceeds the largest absolute value, which is bounded by
+//
+//	Galois key:  digits * parties * B_e
+//	relin. key:  digits * (m*|s|*parties*B_e + m*parties*B_s*parties*B_e + 2*parties*B_e),   s*e0 + u*e1 + e2 + e3
+//
+// with m = N (2N in the conjugate-invariant ring), |s| <= N_parties*B_s for the ideal secret, u the sum of the ephemeral
+// secrets (distribution Xs). A key for another secret has an error of the order of QP.
+func evkConsequence(c Case, params rlwe.Parameters, ideal *rlwe.SecretKey, tShares, orig []*rlwe.SecretKey, rec *h.Rec) error {
+	qs := c.moduli()
+	logQP := float64(h.ProdU(qs).BitLen())
+	digits := float64(len(c.Params.Q))
+	be := math.Floor(c.Params.Xe.AbsBound()+0.5) + 1
+	bs := math.Floor(c.Params.Xs.AbsBound()+0.5) + 1
+	m := float64(params.N())
+	if c.Params.CI {
+		m *= 2
+	}
+	groups := []struct {
+		name  string
+		group []*rlwe.SecretKey
+	}{{"t-party", tShares}, {"N-party", orig}}
+
+	judge := func(key, what string, log2std, bound float64, parties int) error {
+		lb := math.Log2(bound)
+		if lb+4 >= logQP-2 {
+			rec.Class("conseq:" + what + "=bound>=QP/16")
+			return nil
+		}
+		rec.Class("conseq:" + what + "=discriminating")
+		if log2std > lb {
+			return h.Failf(key, "%s generated by %d parties is not a key of the ideal secret: log2(std of the error) = %.2f > log2(bound) = %.2f (log2 QP = %.0f)", what, parties, log2std, lb, logQP)
+		}
+		return nil
+	}
+
+	// Galois key
+	galEl := params.GaloisElement(c.GalK)
+	if c.GalK < 0 {
+		if c.Params.CI {
+			galEl = params.GaloisElement(1)
+		} else {
+			galEl = params.GaloisElementOrderTwoOrthogonalSubgroup()
+		}
+	}
+	gkg := multiparty.NewGaloisKeyGenProtocol(params)
+	gcrp := gkg.SampleCRP(h.KeyedPRNG("c15-gkg-crs"))
+	for _, g := range groups {
+		agg := gkg.AllocateShare()
+		for k, sk := range g.group {
+			sh := gkg.AllocateShare()
+			if err := gkg.GenShare(sk, galEl, gcrp, &sh); err != nil {
+				return h.Failf("C15:conseq:gkg:genshare", "%v", err)
+			}
+			if k == 0 {
+				agg = sh
+			} else if err := gkg.AggregateShares(agg, sh, &agg); err != nil {
+				return h.Failf("C15:conseq:gkg:aggregate", "%v", err)
+			}
+		}
+		gk := rlwe.NewGaloisKey(params)
+		if err := gkg.GenGaloisKey(agg, gcrp, gk); err != nil {
+			return h.Failf("C15:conseq:gkg:genkey", "%v", err)
+		}
+		parties := float64(len(g.group))
+		if err := judge("C15:conseq:gkg:"+g.name, "Galois key ("+g.name+")", rlwe.NoiseGaloisKey(gk, ideal, params), digits*parties*be, len(g.group)); err != nil {
+			return err
+		}
+	}
+
+	// relinearization key: the error contains s*e0, so the ideal secret must be small
+	if c.Secret != "keygen" {
+		return nil
+	}
+	rkg := multiparty.NewRelinearizationKeyGenProtocol(params)
+	rcrp := rkg.SampleCRP(h.KeyedPRNG("c15-rkg-crs"))
+	for _, g := range groups {
+		np := len(g.group)
+		eph := make([]*rlwe.SecretKey, np)
+		r1 := make([]multiparty.RelinearizationKeyGenShare, np)
+		r2 := make([]multiparty.RelinearizationKeyGenShare, np)
+		for k := range g.group {
+			eph[k], r1[k], r2[k] = rkg.AllocateShare()
+		}
+		_, agg1, agg2 := rkg.AllocateShare()
+		for k, sk := range g.group {
+			rkg.GenShareRoundOne(sk, rcrp, eph[k], &r1[k])
+			rkg.AggregateShares(agg1, r1[k], &agg1)
+		}
+		for k, sk := range g.group {
+			rkg.GenShareRoundTwo(eph[k], sk, agg1, &r2[k])
+			rkg.AggregateShares(agg2, r2[k], &agg2)
+		}
+		rlk := rlwe.NewRelinearizationKey(params)
+		rkg.GenRelinearizationKey(agg1, agg2, rlk)
+		parties := float64(np)
+		sInf := float64(len(orig)) * bs
+		bound := digits * (m*sInf*parties*be + m*parties*bs*parties*be + 2*parties*be)
+		if err := judge("C15:conseq:rkg:"+g.name, "relinearization key ("+g.name+")", rlwe.NoiseRelinearizationKey(rlk, ideal, params), bound, np); err != nil {
+			return err
+		}
 	}
 	return nil
 }
